@@ -12,6 +12,7 @@ from typing import (
     Union,
 )
 
+import numpy as np
 from numpy import logical_not, ndarray
 
 from mygrad._utils import WeakRefIterable
@@ -273,7 +274,9 @@ class UnView(Operation):
         # dℒ/d(base) = [0., 0., g2]
         # dℒ/d(view) = [g0, g1]
         if index == 0:  # compute dℒ/d(base)
-            grad = grad.copy()
+            # preserve the memory layout (ndarray.copy defaults to C-order):
+            # the view functions must reproduce views, not copies
+            grad = np.copy(grad)
             grad_view = grad
             for fn in self._view_fn_seq:
                 grad_view = fn(grad_view)
